@@ -922,15 +922,24 @@ func (e *Env) call(n *CNode) Val {
 		if !ok {
 			cxFail("after(%s, ...): no call of %s before this point", n.Args[0].Name, n.Args[0].Name)
 		}
+		guard := ""
 		if b := root.afterCallBlock[n.Args[0].Name]; root.curBlock != nil && b != root.curBlock && !b.Dominates(root.curBlock) {
-			cxFail("after(%s, ...): the call does not dominate this point", n.Args[0].Name)
+			// not every path to this point makes the call: the claim is about the paths that do (boolean e only)
+			guard = root.afterCallReach[n.Args[0].Name]
 		}
 		if len(root.loopsOf[root.afterCallBlock[n.Args[0].Name]]) > 0 {
 			cxFail("after(%s, ...): the call is inside a loop", n.Args[0].Name)
 		}
 		n2 := *e
 		n2.state = st
-		return n2.expr(n.Args[1])
+		r := n2.expr(n.Args[1])
+		if guard != "" {
+			if r.ty == nil || r.ty != tBool {
+				cxFail("after(%s, e): the call is not made on every path, e must be a condition", n.Args[0].Name)
+			}
+			r.t = fmt.Sprintf("(=> %s %s)", guard, r.t)
+		}
+		return r
 	case "prev":
 		// prev(e): e at the start of the current iteration.  Where the invariant is established or assumed this is the
 		// current state (prev(e) == e); at the end of the loop body it is the state the iteration started in, so a
@@ -1084,6 +1093,15 @@ func (e *Env) call(n *CNode) Val {
 		a := args()
 		k := e.theVisKey()
 		return Val{t: fmt.Sprintf("(select %s %s)", g.get(e.state, k), a[0].t), ty: tBool}
+	case "madeHere":
+		// madeHere(x): the object x was allocated by the function under verification (after its entry).  In a callee's
+		// precondition, evaluated at a call site: allocated by the caller - "the caller hands over an object of its own".
+		v := e.expr(n.Args[0])
+		root := e.fc
+		for root.parent != nil {
+			root = root.parent
+		}
+		return Val{t: fmt.Sprintf("(and (< %s %s) (<= %s %s))", g.get(root.entry, "$alloc"), v.t, v.t, g.get(e.state, "$alloc")), ty: tBool}
 	case "freshRef2":
 		// freshRef2(s): the backing array of slice s was allocated after function entry
 		v := e.expr(n.Args[0])
